@@ -11,7 +11,7 @@ EXPLANATION = ("Coroutine-witness analysis of every task the driver spawns and o
                "paced by one peer stream (a stream read); the worker's acceptor branches (accept_uni/accept_bi/accept_datagram) await no per-stream read at all. Also: the worker loop's only suspension is its select!, handlers are "
                "synchronous; Driver accept methods hold at most their own queue's guard; queue capacities are >= 1 and the queues "
                "are distinct channels."
-               ' Also (C07-R7/R8): acceptor branches reserve the queue slots before pulling and own no pulled stream across a later await; an I/O fault (reset, lost) on one stalled stream is not re-labelled as an H3 error that closes the connection.')
+               ' Also (C07-R7/R8): acceptor branches reserve the queue slots before pulling and own no pulled stream across a later await; C07-R9: the capacity of each per-direction hand-off queue (= how many stalled peer streams of that direction the worker tolerates while finding F2 stands) is not below the reference 4 uni / 1 bidi; an I/O fault (reset, lost) on one stalled stream is not re-labelled as an H3 error that closes the connection.')
 NOT_DECIDED = ["liveness bounds", "quinn's stream scheduling and flow control"]
 TRUSTED = ["rustc coroutine layout", "reviewed resource / leaf-future tables (engine/corowit.py)", "tokio mpsc permit semantics"]
 
@@ -140,3 +140,25 @@ def run(ctx):
     ctx.check("C07-R4", "run_impl channels", len(chans2) == 2 and all(isinstance(c, int) and c >= 1 for c in chans2),
               "Worker::run_impl does not create its two H3 hand-off queues with capacity >= 1: %s" % chans2, w2.at)
     ctx.sample({"rule": "C07-R4", "Driver::init": chans, "run_impl": chans2})
+
+    ctx.rule("C07-R9", "the number of stalled peer streams the acceptor tolerates (= capacity of the hand-off queue whose permit the per-stream task holds, finding F2) is not lowered")
+    from rules.shared import SPEC
+    ref = SPEC["handoff_queue_min_capacity"]
+    nq = 0
+    for fq, label in ((f, "Driver::init"), (w2, "Worker::run_impl")):
+        seenq = set()
+        for p in walk(fq):
+            for e in p.events:
+                if e[0] == "call" and re.search(r"mpsc::(bounded::)?channel$", e[1]) and e[3] not in seenq:
+                    seenq.add(e[3])
+                    ta = " ".join(e[5].get("targs") or [])
+                    for role in ("UniRemote", "BiRemote"):
+                        if ("types::%s," % role) in ta:
+                            nq += 1
+                            stage = "WT" if "types::WT" in ta else "H3"
+                            cap = const_val(e[2][0]) if e[2] else None
+                            ctx.check("C07-R9", "%s %s/%s hand-off queue capacity >= %d" % (label, role, stage, ref[role]), isinstance(cap, int) and cap >= ref[role],
+                                      "%s creates the %s/%s hand-off queue with capacity %s: %s stalled stream(s) of that direction now stop the worker from accepting (reference: %d)" % (label, role, stage, cap, cap, ref[role]),
+                                      e[4], key="handoff capacity|%s|%s/%s" % (label, role, stage))
+            break
+    ctx.floor("C07-R9", "per-direction hand-off queues", nq, 4)
